@@ -146,6 +146,12 @@ def case_triple(case, col=None):
     xb = _derive(R, x, ua, ub, case["modeb"], case["d"], case["y"])
     xc = _derive(R, x, ua, uc, case["modec"], case["d"], case["y"])
     a, b, c = Q(x, ua), Q(xb, ub), Q(xc, uc)
+    # a read-only question about another unit system in between (equality and hashes must not depend on it); chosen by the case itself
+    other = ("cgs", "imperial", "US", None)[(len(ua) + len(ub) + len(uc)) % 4]
+    if other:
+        ureg_ = env.ureg("Fraction")
+        for un in (ua, ub, uc):
+            attempt(ureg_.get_base_units, un, system=other)
     (va, da), (vb, db), (vc, dc) = value_R(x, ua), value_R(xb, ub), value_R(xc, uc)
     if col is not None:
         diffroot = R.resolve(ua).root != R.resolve(ub).root
